@@ -1287,7 +1287,7 @@ class Compiler:
     def visit_OnError(self, node):
         body = []
 
-        fallback = identifier("__fallback")
+        fallback = identifier("__fallback", id(node))
         body += template("fallback = len(__stream)", fallback=fallback)
 
         self._enter_assignment((node.name, ))
